@@ -5,7 +5,7 @@
    A tensor is a list of rows (a 1-D vector of length n is n rows of length 1). *)
 From Coq Require Import List Arith ZArith QArith Qabs Bool.
 From Coq Require Uint63.
-From TLV Require Import Base.Ops Base.Tensor Model.Prox Model.ProxDispatch Corr.Common.
+From TLV Require Import Base.Ops Base.Tensor Model.Prox Model.ProxDispatch Model.ProxSvtGap Corr.Common.
 From TLV Require Model.Constraints.
 Import ListNotations.
 
@@ -31,7 +31,10 @@ Inductive op :=
 | ORouted (n_const : option nat) (order : Z) (specs : kwargs) (aux : Q)      (* order: the Python int as written, also negative / out of range *)
 | ORejected (n_const : nat) (order : Z) (specs : kwargs)
 (* the call o on a tensor with ndim >= 3 dimensions (presented as first axis x the rest): raised = the implementation raised ValueError *)
-| ONd (ndim : nat) (raised : bool) (o : op).
+| ONd (ndim : nat) (raised : bool) (o : op)
+(* smoothness_prox / proximal_operator(smoothness=...) (the call o, which must resolve to OSmooth) on a tensor with three or more dimensions,
+   presented as the rows of its shape[-2] x shape[-1] slices one after the other; d0 = shape[0], p = shape[-2] (Model/ProxDispatch.smooth_nd) *)
+| OSmoothNd (raised : bool) (d0 p : nat) (o : op).
 
 (* the operators proximal_operator can select (Model/ProxDispatch.pop) among the operators of the correspondence *)
 Definition of_pop (o : @pop Q) : op :=
@@ -58,6 +61,7 @@ Definition resolve_op (o : op) : option op :=
       end
   | ORejected _ _ _ => None
   | ONd _ _ _ => None
+  | OSmoothNd _ _ _ _ => None
   | _ => Some o
   end.
 
@@ -98,6 +102,15 @@ Definition svd_tape_ok (atol rtol : Q) (U : M) (s : list Q) (V : M) (rows : M) :
   && (negb (Nat.eqb (length (hd [] V)) k) || rows_close (1 # 1000000000) 0 (mat_mul Qops (cols_of Qops V) V) (identity_mat Qops k))
   && (negb (Nat.eqb (length U) k) || rows_close (1 # 1000000000) 0 (mat_mul Qops U (cols_of Qops U)) (identity_mat Qops k)).
 
+(* svd_thresholding without the exact SVD contract: the a-posteriori bound of Model/ProxSvtGap.svt_gap (Proofs/ProxProofsSvtGap.svt_gap_sound,
+   C12_svt_gap_exec_sound: the objective of the returned matrix exceeds the minimum by at most this number), evaluated exactly on the recorded
+   tape with e = 1e-9 (the entrywise tolerance svd_tape_ok decides for the two Gram matrices), must not exceed 1e-7 (t sum soft(s) + |M|^2 / 2) *)
+Definition svt_gap_ok (t : Q) (U : M) (s : list Q) (V rows : M) : bool :=
+  if Qle_bool 0 t then
+    Qle_bool (svt_gap Qops (1 # 1000000000) U s V t rows)
+             (Qred ((1 # 10000000) * (t * lsum Qops (soft_thresholding Qops t s) + sumsq Qops (concat rows) / 2)))
+  else true.
+
 (* exact certificates decided on the MODEL's output (so that the theorems of Proofs/ apply to it) *)
 Definition model_cert (atol rtol : Q) (o : op) (rows : M) : bool :=
   let out := run o rows in
@@ -108,7 +121,7 @@ Definition model_cert (atol rtol : Q) (o : op) (rows : M) : bool :=
   | OHard k => valid_ht Qops k (concat rows) (concat out)
   | OL2 t s => norm_ok s (concat rows)
   | ONormSparsity k s => norm_ok s (hard_thresholding Qops k (concat rows))
-  | OSvt _ U s V => svd_tape_ok atol rtol U s V rows
+  | OSvt t U s V => svd_tape_ok atol rtol U s V rows && svt_gap_ok t U s V rows
   | OProcrustes U s V => svd_tape_ok atol rtol U s V rows
   | _ => true
   end.
@@ -155,6 +168,19 @@ Definition agree (c : case) : bool :=
       match resolve_op o1 with None => false | Some o =>
       match to_pop o with None => false | Some po =>
       if raised then negb (ndim_ok po nd) else ndim_ok po nd && agree_op o rows out atol rtol end end
+  | OSmoothNd raised d0 p o1 =>
+      (* raised-iff-the-model-refuses (shape[-2] <> shape[0]); an accepted call is compared slice by slice, and the tridiagonal system is
+         decided exactly on the model's output for every column of every slice *)
+      match resolve_op o1 with
+      | Some (OSmooth t) =>
+          match smooth_nd Qops t d0 p rows with
+          | Err => raised
+          | Ok Y => negb raised && rows_close atol rtol Y out
+                    && all2 (fun Ys Xs : M => all2 (fun x v => q_list_eqb (sm_apply Qops t 0 x) v) (cols_of Qops Ys) (cols_of Qops Xs))
+                            (rchunk (length Y) p Y) (rchunk (length rows) p rows)
+          end
+      | _ => false
+      end
   | _ => match resolve_op o0 with None => false | Some o => agree_op o rows out atol rtol end
   end.
 Definition ident (c : case) : Z := let '(i, _, _, _, _, _) := c in i.
